@@ -81,22 +81,41 @@ impl<'a> HasInputs<'a, Val> for &'a SimData<'a> {
     }
 }
 
-fn probes() -> Box<[Filter<RunPtr<SimKind>>]> {
-    Box::new([
-        ("probe", v(1), |mut cv| {
-            let i = cv.0.pop_var();
-            let log = cv.0.data().log;
-            if log.push(Ev::P(i.to_string())) {
-                box_once(Ok(cv.1))
-            } else {
-                box_once(Err(Exn::from(Error::str("out of fuel"))))
-            }
-        }),
-        ("bomb", v(0), |cv| {
-            cv.0.data().log.push(Ev::Bomb);
-            box_once(Err(Exn::from(Error::str("bomb"))))
-        }),
-    ])
+fn probe_fun() -> Fun<SimKind> {
+    use jaq_all::jaq_core::Native;
+    let n = Native::<SimKind>::new(|mut cv| {
+        let i = cv.0.pop_var();
+        let log = cv.0.data().log;
+        if log.push(Ev::P(i.to_string())) {
+            box_once(Ok(cv.1))
+        } else {
+            box_once(Err(Exn::from(Error::str("out of fuel"))))
+        }
+    })
+    // in path mode the probe passes the value *and its path* through
+    .with_paths(|mut cv| {
+        let i = cv.0.pop_var();
+        let log = cv.0.data().log;
+        if log.push(Ev::P(i.to_string())) {
+            box_once(Ok(cv.1))
+        } else {
+            box_once(Err(Exn::from(Error::str("out of fuel"))))
+        }
+    });
+    ("probe", v(1), n)
+}
+
+fn bomb_fun() -> Fun<SimKind> {
+    use jaq_all::jaq_core::Native;
+    let n = Native::<SimKind>::new(|cv| {
+        cv.0.data().log.push(Ev::Bomb);
+        box_once(Err(Exn::from(Error::str("bomb"))))
+    })
+    .with_paths(|cv| {
+        cv.0.data().log.push(Ev::Bomb);
+        box_once(Err(Exn::from(Error::str("bomb"))))
+    });
+    ("bomb", v(0), n)
 }
 
 /// All natives of the tree for `SimKind`, plus the probes.
@@ -105,8 +124,7 @@ pub fn funs() -> impl Iterator<Item = Fun<SimKind>> {
     let std = jaq_all::jaq_std::funs::<SimKind>();
     let json = jaq_all::json::funs::<SimKind>();
     let input = input::funs::<SimKind>().into_vec().into_iter().map(run::<SimKind>);
-    let probes = probes().into_vec().into_iter().map(run::<SimKind>);
-    core.chain(std).chain(json).chain(input).chain(probes)
+    core.chain(std).chain(json).chain(input).chain([probe_fun(), bomb_fun()])
 }
 
 pub type SimFilter = jaq_all::jaq_core::Filter<SimKind>;
